@@ -85,4 +85,39 @@ PROPS = {
         ],
         "assumptions": ["strings.ToLower is modelled for ASCII only; cases with non-ASCII annotation values are skipped and counted"],
     },
+    "C01": {
+        "corr": [("actions", {"quick": 800, "thorough": 20000})],
+        "trusted_base": [
+            "modelled, not verified: the cluster (every phase of an operation -- reachability/build/ownership checks, hooks, resource create/update, wait, cleanup, delete -- is a decision ok/fail/crash supplied by the fault plan; the harness injects exactly these decisions through the kube client, waiter and API-server simulator), rendering (a revision's content is an opaque payload number), the storage drivers below the driver.Driver interface (the fault-injecting wrapper sits on top of the real Secret/ConfigMap/memory drivers over client-go fakes; C10 covers them), time stamps, locking (one operation at a time; C09 is about interleavings)",
+        ],
+        "assumptions": ["charts carry one hook per event (nHooks = 1 in the correspondence; the theorems are for every nHooks)", "crash = process death: every later request and storage call of that operation fails, the next operation starts a fresh Configuration"],
+    },
+    "C03": {
+        "corr": [("actions", {"quick": 800, "thorough": 20000})],
+        "trusted_base": [
+            "same model and harness as C01 (ledger model of install/upgrade/rollback/uninstall with a fault plan); containment is monitored on the implementation for every failed operation whose only fault is cluster-side",
+        ],
+        "assumptions": ["a failure = one cluster-side phase failing (or the process dying there) with release storage itself working; storage-write failures are C01's finding success-with-storage-write-failure"],
+    },
+    "C06": {
+        "corr": [("actions", {"quick": 600, "thorough": 12000}), ("kube", {"quick": 1000, "thorough": 20000})],
+        "trusted_base": [
+            "modelled, not verified: helm template's command-line wiring (pkg/cmd/template.go sets DryRun/ClientOnly on action.Install; the harness drives action.Install with those fields), post-renderers and CRD directories (the crash/render sweeps of C05/C20 exercise them without a model); observed: request log of the simulated API server and call log of the recording storage wrapper",
+        ],
+        "assumptions": ["dry-run spellings are those the action structs accept (DryRun bool + DryRunOption client|server|true); reads (GET) are allowed in every mode but client-only"],
+    },
+    "C02": {
+        "corr": [("kube", {"quick": 1500, "thorough": 40000})],
+        "trusted_base": [
+            "modelled, not verified: the API server (a flat object store: data / labels / annotations maps per object; strategic-merge and JSON-merge patch application are the simulator's, written for these flat objects), client-go's patch computation (strategicpatch.CreateThreeWayMergePatch / jsonpatch.CreateMergePatch run for real in the harness; the model states their effect on flat maps), resource.Builder/Helper, hooks and waiting (C12), CRDs",
+        ],
+        "assumptions": ["every request is accepted (the property's premise)", "objects are flat; nested fields, lists with merge keys and server-side defaulting are outside the model", "strings.ToLower / TrimSpace of the resource-policy value are modelled for ASCII"],
+    },
+    "C07": {
+        "corr": [("kube", {"quick": 1500, "thorough": 40000})],
+        "trusted_base": [
+            "same cluster model and simulator as C02; the record side (no storage write before the ownership check) is the ledger model's pre-flight phase, tied by the kube sub-command's storage write log",
+        ],
+        "assumptions": ["six ownership states are generated for pre-existing objects: foreign, other release name, same name other namespace, label only, annotations only, correctly owned", "CRDs from crds/ are not generated by this sub-command (the install path creates them before the ownership check; see DESIGN.md)"],
+    },
 }
